@@ -604,6 +604,36 @@ pub fn run(session: &Session, prop: &'static RefProp, rule: &str) -> i32 {
             }
         }
     }
+    if prop.id == "C04" && !session.stopped() {
+        // union-typed constants (literal: folded to one member; hidden: decided at run time) in front of
+        // consumers whose answer depends on run-time types
+        let sources = [
+            ("[{i1}, {f25}][{i0}]", "x"),
+            ("if {bt} { {i1} } else { {f25} }", "x"),
+            ("match {i1} { {i1} => {i1}, => {f25}, }", "x"),
+            ("[{f25}, {i1}][-{i1}]", "x"),
+        ];
+        let lit = |t: &str, hidden: bool| {
+            let wrap = |ty: &str, v: &str| if hidden { format!("*(mut {ty} {v})") } else { v.to_string() };
+            t.replace("{i1}", &wrap("int", "1")).replace("{i0}", &wrap("int", "0")).replace("{f25}", &wrap("float", "2.5")).replace("{bt}", &wrap("bool", "true"))
+        };
+        let mut cases = vec![];
+        for (src, name) in sources {
+            for consumer in crate::genr::nearmiss::union_typed_consumers() {
+                let (body, last) = consumer.split_at(consumer.len() - 1);
+                for (open, close) in [("", ""), ("w := () -> any { ", "}; w()")] {
+                    let program = |hidden: bool| {
+                        let decl = format!("{name} := {};", lit(src, hidden));
+                        let stmts: String = body.iter().map(|b| format!(" {b};")).collect();
+                        if open.is_empty() { format!("{decl}{stmts} {}", last[0]) } else { format!("{open}{decl}{stmts} return {}; {close}", last[0]) }
+                    };
+                    cases.push(json!({"plain": program(false), "hidden": program(true), "partly_hidden": program(true), "expected": "", "permitted": [], "labels": ["twin catalogue"], "counters": {}, "literals": 4}));
+                }
+            }
+        }
+        session.set_extra("twin_catalogue_cases", json!(cases.len()));
+        session.run_enum(prop, cases);
+    }
     if prop.id == "C06" && !session.stopped() {
         let cases = scope_cases();
         session.set_extra("binder_scope_cases", json!(cases.len()));
